@@ -488,7 +488,12 @@ func u32s(v []uint32) string { return fmt.Sprint(v) }
 
 func mkCommands(rng *rand.Rand, selected bool, numMsgs uint32) []*pcmd {
 	var all []*pcmd
-	box := func(i int) string { return []string{"Work", "Lists/go", "Å", "Trash"}[i%4] }
+	// (mailbox names other than INBOX are case-sensitive: "Reports" and "reports" are two mailboxes)
+	boxes := []string{"Work", "Lists/go", "Å", "Trash"}
+	if rng.Intn(3) == 0 {
+		boxes = []string{"Reports", "Lists/go", "reports", "REPORTS"}
+	}
+	box := func(i int) string { return boxes[i%4] }
 	// STATUS x2 (distinct mailboxes): routed by mailbox name
 	for i := 0; i < 2; i++ {
 		name := box(i + rng.Intn(2)*2)
